@@ -207,7 +207,7 @@ class AddrGroup(Base, Group):
         for item in items:
             idx, item = h.findall2(regex, item)
             try:
-                address = AddressAg(line=item, platform=self._platform)
+                address = AddressAg(line=item, platform=self._platform, max_ncwb=self.max_ncwb)
             except ValueError:
                 msg = f"invalid {item=}"
                 logging.debug(msg)
